@@ -14,14 +14,16 @@ and gets the DATA of the last one (`crateIndex`). On that index
   warning; otherwise the entry is listed under its canonical spelling `canonName` (the `Normal`
   components joined by `/`: `a//b`, `a/./b`, `./a/b` are `a/b`) unless an earlier entry was listed
   – or sniffed and rejected: the `seen` set is filled before `handle_file` – under that spelling;
-* `read(name)` / `extract(name, ..)` look the canonical name up with `zip_index`:
-  `index_for_name(name)` – an entry whose RAW name is that string – and only when there is none the
-  first entry, DIRECTORY ENTRIES INCLUDED, whose canonical spelling is `name`.
+* `read(name)` / `extract(name, ..)` look the canonical name up with `zip_index`: since fix
+  99c0f28 the first entry in index order that is not a directory entry and whose canonical
+  spelling is `name` – the entry `explore` listed (`zipListed_eq_zipFirst`). Before that fix
+  (`zipIndexOld`, kept for the regression example of Props/C17) it was `index_for_name(name)` – an
+  entry whose RAW name is that string – and only when there was none the first entry, DIRECTORY
+  ENTRIES INCLUDED, of that spelling: the listed entry and the read entry could differ.
 
-So the entry that is listed (whose bytes are sniffed) and the entry that is read need not be the
-same one when two entries share a canonical name; `zipListed` records both: `head` of the listed
-entry, `cid` of the entry `zip_index` finds. The rest of the model (`Producer.run`) sees a zip as
-the list `zipListed entries`, whose paths are pairwise distinct by construction.
+`zipListed` records, per listed entry, the `head` of the listed entry and the `cid` of the entry
+`zip_index` finds. The rest of the model (`Producer.run`) sees a zip as the list
+`zipListed entries`, whose paths are pairwise distinct by construction.
 Core Lean only (linked into `gm_c17` and `gmodel`).
 -/
 import GrcovModel.Producer
@@ -61,8 +63,14 @@ def canonName (n : Name) : Option Name :=
   if n.contains 0 || !(UPath.components n).all compOk then none
   else some (UPath.join ((UPath.components n).filterMap normalName?))
 
-/-- `zip_index` -/
+/-- `zip_index` (fix 99c0f28): the first non-directory entry whose canonical spelling is `name` -/
 def zipIndex (ix : List RawEntry) (name : Name) : Option RawEntry :=
+  ix.find? (fun e => !rawIsDir e.name && canonName e.name = some name)
+
+/-- `zip_index` as it was between 2f541c3 and 99c0f28 (finding
+C17-zip-same-canonical-name-reads-other-entry, repaired): the raw name first, then any entry of
+that spelling, directory entries included -/
+def zipIndexOld (ix : List RawEntry) (name : Name) : Option RawEntry :=
   match ix.find? (fun e => e.name = name) with
   | some e => some e
   | none => ix.find? (fun e => canonName e.name = some name)
@@ -88,8 +96,8 @@ def listIx (ix : List RawEntry) : List File := listGo ix [] ix
 /-- a zip archive as `Producer.run` sees it -/
 def zipListed (es : List RawEntry) : List File := listIx (crateIndex es)
 
-/-- what the commit message of 2f541c3 promises: per canonical name the FIRST listable entry, with
-its own content (the reference the theorems of Props/C17 compare `zipListed` with) -/
+/-- per canonical name the FIRST listable entry, with its own first bytes and its own content: the
+reference the theorems of Props/C17 compare `zipListed` with (equal since fix 99c0f28) -/
 def firstGo : List Name → List RawEntry → List File
   | _, [] => []
   | seen, e :: es =>
